@@ -66,7 +66,6 @@ func main() {
 		r := rand.New(rand.NewSource(seed))
 		s.gen(r, n, func(l string) { fmt.Fprintln(w, l) })
 	case "run":
-		flushEach := os.Getenv("VERIF_FLUSH") != ""
 		st := newState()
 		sc := bufio.NewScanner(os.Stdin)
 		sc.Buffer(make([]byte, 1<<20), 1<<26)
@@ -104,9 +103,9 @@ func main() {
 				continue
 			}
 			fmt.Fprintf(w, "%s\t%s\n", line, safeRun(rn, st, f[1:]))
-			if flushEach {
-				w.Flush()
-			}
+			// every answered op is on stdout before the next one runs: if the process dies (a Go panic in a
+			// connection goroutine cannot be recovered here) the caller knows which op it died in
+			w.Flush()
 		}
 		for _, h := range resetHooks {
 			h(st)
